@@ -62,7 +62,10 @@ impl Check for C02 {
             c.allow_uncompressed = true;
             c.max_thresh_n = 4;
             if heavy {
-                c.or_boost = 4;
+                c.or_boost = *[1u32, 4, 4][size % 3..].first().unwrap();
+                c.thresh_boost = *[6u32, 1, 3][size % 3..].first().unwrap();
+                c.top_props = crate::mirror::spec::S | crate::mirror::spec::M;
+                c.top_tries = 6;
                 c.leaf_w = [8, 1, 2];
                 c.key_style = KeyStyle::Hex;
             }
@@ -83,6 +86,18 @@ impl Check for C02 {
             return Ok(());
         }
         let mut world = if heavy && src.chance(2, 3) { gen::gen_full_world(src, &d) } else { gen::gen_world(src, &d) };
+        let mut drop_internal: Option<[u8; 32]> = None;
+        if heavy && src.chance(3, 4) {
+            // mostly without the internal key: otherwise the key path (cheapest) hides the tree
+            if let crate::mdesc::MDesc::Tr(ik, Some(_)) = &d {
+                if let Ok(kb) = crate::mirror::encode::key_bytes(ik, crate::mirror::spec::Ctx::Tap) {
+                    drop_internal = keys::xonly_of(&kb);
+                }
+            }
+        }
+        if let Some(x) = drop_internal {
+            world.keys.remove(&x);
+        }
         if sane {
             world.preimages = keys::u().preimages.iter().copied().collect();
         }
